@@ -5,6 +5,7 @@
 package chain
 
 import (
+	"github.com/oasisprotocol/oasis-core/go/common/version"
 	"fmt"
 	"net"
 	"time"
@@ -109,6 +110,7 @@ type GenesisOptions struct {
 	RtMinPool          uint16   // MinPoolSize scheduling constraint (default = group size)
 	DebondingInterval  uint64   // staking debonding interval in epochs (default 1)
 	RtFunded           bool     // account 1 holds a 700-unit delegation to the runtime's own account (needed for runtime governance)
+	RtTwoVersions      bool     // the runtime has a second deployment (version 1.0.0) valid from epoch 3; node 1 is registered for the old version only
 	Vault              bool     // a vault (creator account 0, id 1) with balance 100 exists at genesis: admin {a0,a1} threshold 1, suspend {a1}, withdraw policy 60 per 10 blocks for account 1
 
 }
@@ -191,6 +193,9 @@ func (k *Keys) RuntimeDescriptor(ent int, o GenesisOptions) *registry.Runtime {
 			MinInMessageFee: q(1),
 		},
 		Deployments: []*registry.VersionInfo{{}},
+	}
+	if o.RtTwoVersions {
+		rt.Deployments = append(rt.Deployments, &registry.VersionInfo{Version: version.Version{Major: 1}, ValidFrom: 3})
 	}
 	rt.Genesis.StateRoot.Empty()
 	return rt
@@ -450,7 +455,11 @@ func Genesis(k *Keys, o GenesisOptions) (*genesis.Document, error) {
 		if e < len(o.NodeExpirations) && o.NodeExpirations[e] > 0 {
 			exp = o.NodeExpirations[e]
 		}
-		sn, err := node.MultiSignNode(k.NodeSigners(e), registry.RegisterGenesisNodeSignatureContext, withRuntimes(k.NodeDescriptor(e, e, beacon.EpochTime(exp), roles), nodeRts))
+		rts := nodeRts
+		if o.Runtime && o.RtTwoVersions && e != 1 {
+			rts = append(append([]*node.Runtime{}, nodeRts...), &node.Runtime{ID: RuntimeID(), Version: version.Version{Major: 1}})
+		}
+		sn, err := node.MultiSignNode(k.NodeSigners(e), registry.RegisterGenesisNodeSignatureContext, withRuntimes(k.NodeDescriptor(e, e, beacon.EpochTime(exp), roles), rts))
 		if err != nil {
 			return nil, err
 		}
